@@ -689,3 +689,52 @@ func VerifC01T_PlainExchangePad250() { vRun(1, func() { vStepPlainV(3, 2, 250, 4
 func VerifC01T_RelAddPad250()        { vRun(1, func() { vStepRelV(1, 2, 250, 5) }) }
 func VerifC04T_RelRemoveEntityAll()  { vRun(1, func() { vStepRelV(5, 2, 190, 5) }) }
 func VerifC04T_RelSetRelationsAll()  { vRun(1, func() { vStepRelV(4, 1, 126, 5) }) }
+
+// C02: removal through a stale handle (never-reused dead id, recycled id) is rejected and
+// leaves liveness and counts of everything else exact
+func VerifC02_RemoveEntityStaleHandles() { vRun(0, func() { vStepRel(5, 1, 60) }) }
+func VerifC02_CopyStaleHandles()         { vRun(0, func() { vStepRel(6, 1, 60) }) }
+
+// ---- C04 scenario: a child changes archetype without naming its relation (the new table is
+// created from the old table's relation list), the common target dies (both tables freed),
+// new targets recycle both tables, then one new target dies and a component is added.
+func VerifC04_RecycleAfterArchetypeMove() {
+	vMode = 1
+	W := vShapeRel(1, 60, false, 0)
+	vTighten(W.w)
+	p0 := W.e[0].h
+	// child 2 has (R1->p0, A): give it B
+	W.u.Add(W.e[2].h, W.id[cB])
+	W.e[2].has[cB] = true
+	W.e[2].vel = vVel{}
+	W.checkAll("moved")
+	W.removeEntity(0) // p0 dies: every table with target p0 is emptied and freed
+	_ = p0
+	W.checkAll("target-dead")
+	a := W.create([]int{cA}, Entity{}, Entity{})
+	b := W.create([]int{cA}, Entity{}, Entity{})
+	order := vPick("order", 2)
+	if order == 0 {
+		W.create([]int{cR1, cA}, W.e[a].h, Entity{})
+		W.create([]int{cR1, cA, cB}, W.e[b].h, Entity{})
+	} else {
+		W.create([]int{cR1, cA, cB}, W.e[b].h, Entity{})
+		W.create([]int{cR1, cA}, W.e[a].h, Entity{})
+	}
+	for i := a; i < W.n; i++ {
+		W.havocValues(i)
+	}
+	W.checkAll("recycled")
+	switch vPick("then", 3) {
+	case 0:
+		W.removeEntity(a)
+	case 1:
+		W.removeEntity(b)
+	case 2:
+		last := W.n - 1
+		W.u.Add(W.e[last].h, W.id[cT])
+		W.e[last].has[cT] = true
+	}
+	W.checkAll("after")
+	vreach("end")
+}
